@@ -293,9 +293,9 @@ fn escape_case(input: &str, stored: &str, looked_up: &str) {
     std::mem::forget(t);
 }
 
-// @tier quick
-// @timeout 900
-// @mem 16
+// @tier thorough
+// @timeout 3600
+// @mem 44
 // @bounds the concrete message "a\\nb": an escape sequence between two letters
 // @unwindset memchr=40
 // @claims escape sequences are stored as real newlines, every newline comes back escaped, lone backslashes are untouched, and set(get(k)) is the identity on the stored text
@@ -307,9 +307,9 @@ fn c07_escaping_escape_sequence() {
     escape_case("a\\nb", "a\nb", "a\\nb");
 }
 
-// @tier quick
-// @timeout 900
-// @mem 16
+// @tier thorough
+// @timeout 3600
+// @mem 44
 // @bounds the concrete message "a<LF>b": a real newline
 // @unwindset memchr=40
 // @claims escape sequences are stored as real newlines, every newline comes back escaped, lone backslashes are untouched, and set(get(k)) is the identity on the stored text
@@ -322,8 +322,8 @@ fn c07_escaping_real_newline() {
 }
 
 // @tier quick
-// @timeout 900
-// @mem 16
+// @timeout 600
+// @mem 8
 // @bounds the concrete message "\\": a lone backslash
 // @unwindset memchr=40
 // @claims escape sequences are stored as real newlines, every newline comes back escaped, lone backslashes are untouched, and set(get(k)) is the identity on the stored text
@@ -335,9 +335,9 @@ fn c07_escaping_lone_backslash() {
     escape_case("\\", "\\", "\\");
 }
 
-// @tier quick
-// @timeout 900
-// @mem 16
+// @tier thorough
+// @timeout 3600
+// @mem 44
 // @bounds the concrete message "n\\": the letter n followed by a backslash
 // @unwindset memchr=40
 // @claims escape sequences are stored as real newlines, every newline comes back escaped, lone backslashes are untouched, and set(get(k)) is the identity on the stored text
@@ -350,8 +350,8 @@ fn c07_escaping_trailing_backslash() {
 }
 
 // @tier quick
-// @timeout 900
-// @mem 16
+// @timeout 600
+// @mem 8
 // @bounds the concrete message the empty message
 // @unwindset memchr=40
 // @claims escape sequences are stored as real newlines, every newline comes back escaped, lone backslashes are untouched, and set(get(k)) is the identity on the stored text
@@ -363,9 +363,9 @@ fn c07_escaping_empty() {
     escape_case("", "", "");
 }
 
-// @tier quick
-// @timeout 900
-// @mem 16
+// @tier thorough
+// @timeout 3600
+// @mem 44
 // @bounds the concrete message "\\\\n": a backslash before an escape sequence
 // @unwindset memchr=40
 // @claims escape sequences are stored as real newlines, every newline comes back escaped, lone backslashes are untouched, and set(get(k)) is the identity on the stored text
@@ -377,9 +377,9 @@ fn c07_escaping_backslash_before_escape() {
     escape_case("\\\\n", "\\\n", "\\\\n");
 }
 
-// @tier quick
-// @timeout 900
-// @mem 16
+// @tier thorough
+// @timeout 3600
+// @mem 44
 // @bounds the concrete message two consecutive escape sequences
 // @unwindset memchr=40
 // @claims escape sequences are stored as real newlines, every newline comes back escaped, lone backslashes are untouched, and set(get(k)) is the identity on the stored text
